@@ -136,6 +136,26 @@ def _bkg(d, kw):
         return Background2D(d, **kw)
 
 
+def _clip_ambiguous(v, sigma, maxiters):
+    """True if, in some iteration of median/std sigma clipping, a sample
+    lies within rounding of a clipping bound (the summation order of the
+    standard deviation then decides whether it is kept)."""
+    v = np.sort(v)
+    for _ in range(maxiters if maxiters is not None else 1000):
+        if v.size == 0:
+            return False
+        c, sd = float(np.median(v)), float(np.std(v))
+        lo, hi = c - sigma * sd, c + sigma * sd
+        tol = 1e-9 * max(abs(lo), abs(hi), sd, 1e-300)
+        if np.any(np.abs(v - lo) <= tol) or np.any(np.abs(v - hi) <= tol):
+            return True
+        keep = (v >= lo) & (v <= hi)
+        if keep.all():
+            return False
+        v = v[keep]
+    return False
+
+
 def mesh_model(case, d, mask, cov):
     """Oracle mesh (bkg, rms, ngood, excluded, ambiguous) with NaN where a
     box is excluded."""
@@ -164,10 +184,19 @@ def mesh_model(case, d, mask, cov):
             v = full[j * by:(j + 1) * by, i * bx:(i + 1) * bx].ravel()
             v = v[~np.isnan(v)]
             if sc is not None and v.size:
+                if _clip_ambiguous(v, sc[0], sc[1]):
+                    amb[j, i] = True
                 with warnings.catch_warnings():
                     warnings.simplefilter('ignore')
-                    v = SigmaClip(sigma=sc[0], maxiters=sc[1])(v, masked=False)
+                    clip = SigmaClip(sigma=sc[0], maxiters=sc[1])
+                    # astropy's along-an-axis (compiled) and flattened
+                    # (numpy) code paths do not always agree on even-sized
+                    # samples; where they differ the box is ambiguous
+                    v2 = clip(v.reshape(1, -1), axis=1, masked=False)
+                    v = clip(v, masked=False)
                 v = v[~np.isnan(v)]
+                if int(np.isfinite(v2).sum()) != v.size:
+                    amb[j, i] = True
             ng = v.size
             ngood[j, i] = ng
             if ng == 0:
@@ -220,7 +249,9 @@ def check_mesh(case, ctx):
     npx = np.asarray(b.npixels_mesh)
     require(bm.shape == mesh.shape and rm.shape == mesh.shape, 'mesh_shape',
             f'{bm.shape} vs {mesh.shape}')
-    if not np.array_equal(npx, ngood):
+    if amb.any():
+        ctx.event('ambiguous_box')
+    if not np.array_equal(npx[~amb], ngood[~amb]):
         raise Violation('npixels_mesh', f'npixels_mesh\n{npx}\nvs oracle\n{ngood}',
                         accel=ACCEL)
     excluded = np.isnan(mesh) & ~amb
